@@ -23,13 +23,18 @@ Base == [query |-> "Query", mutation |-> "", subscription |-> "",
                                                               [Fld("d", Named("Int"), << ArgD("s", Named("String"), [k |-> "str", v |-> "ASTRAL"]), ArgD("ev", Named("E"), [k |-> "enumv", v |-> "px"]),
                                                                                         ArgD("li", ListOf(Named("Int")), [k |-> "list", vs |-> <<[k |-> "int", v |-> "1"], [k |-> "int", v |-> "2"]>>]),
                                                                                         ArgD("o", Named("In"), [k |-> "dict", fs |-> <<[key |-> "dflt", val |-> [k |-> "null"]], [key |-> "g", val |-> [k |-> "int", v |-> "2"]]>>]),
-                                                                                        ArgD("b", Named("Boolean"), [k |-> "bool", v |-> TRUE]), ArgD("fl", Named("Float"), [k |-> "float", v |-> "1.5"]) >>)
+                                                                                        ArgD("b", Named("Boolean"), [k |-> "bool", v |-> TRUE]), ArgD("fl", Named("Float"), [k |-> "float", v |-> "1.5"]),
+                                                                                        \* falsy defaults: zero, empty string, empty list, false
+                                                                                        ArgD("z", Named("Int"), [k |-> "int", v |-> "0"]), ArgD("es", Named("String"), [k |-> "str", v |-> ""]),
+                                                                                        ArgD("el", ListOf(Named("Int")), [k |-> "list", vs |-> <<>>]), ArgD("bf", Named("Boolean"), [k |-> "bool", v |-> FALSE]) >>)
                                                                  EXCEPT !.dep = "ASTRAL"] >>],
     [k |-> "interface", name |-> "Node", fields |-> << Fld("id", Named("ID"), <<>>) >>],
     [k |-> "object", name |-> "A", ifaces |-> <<"Node">>, fields |-> << Fld("id", Named("ID"), <<>>), Fld("s", Named("String"), <<>>) >>],
     [k |-> "object", name |-> "B", ifaces |-> <<>>, fields |-> << Fld("id", Named("ID"), <<>>) >>],
     [k |-> "union", name |-> "U", members |-> <<"A", "B">>],
     [k |-> "enum", name |-> "E", values |-> << [name |-> "X", dep |-> "", py |-> "px"], [name |-> "Y", dep |-> "", py |-> "py"] >>],
+    \* an enum value deprecated with an EMPTY reason ("EMPTY" is expanded by the harness to the empty string): still deprecated
+    [k |-> "enum", name |-> "E2", values |-> << [name |-> "P", dep |-> "EMPTY", py |-> "pp"], [name |-> "Q", dep |-> "", py |-> "pq"] >>],
     [k |-> "input", name |-> "In", fields |-> << Arg("f", Named("Int")), ArgD("g", NN(Named("Int")), [k |-> "int", v |-> "1"]), ArgD("dflt", Named("Int"), [k |-> "int", v |-> "5"]) >>] >>,
   directives |-> << [name |-> "tag", locs |-> <<"FIELD", "QUERY">>, args |-> <<Arg("n", Named("Int"))>>] >>]
 
